@@ -21,6 +21,9 @@ def _templates():
     def t3(v):
         return jnp.stack([v[0] * v[1], v[0] + v[1]])
 
+    def t4(v):
+        return jnp.prod(v) * jnp.ones(2, v.dtype)
+
     @jax.custom_jvp
     def cj(v):
         return v * v + 3.0 * v
@@ -41,7 +44,7 @@ def _templates():
         return (2.0 * (2.0 * res + 3.0) * g,)
 
     cv.defvjp(cv_fwd, cv_bwd)
-    return {"t1": t1, "t2": t2, "t3": t3, "cj": cj, "cv": cv}
+    return {"t1": t1, "t2": t2, "t3": t3, "t4": t4, "cj": cj, "cv": cv}
 
 
 def run_cases(cases: list[dict[str, Any]]) -> dict[str, Any]:
